@@ -404,6 +404,40 @@ func (w *world) opLose(t *inst, op Op) {
 	if d := diffMaps(before, after); d != "" {
 		w.fail("c17.repair", "content-after-repair", "content after repair differs: %s", d)
 	}
+	// The repaired trie goes on being used: one local update, then its collected changes are replayed into
+	// another trie opened at the same root with a later version (what merging a synced state upwards does).
+	// Whatever happens to the nodes on that way, the donor store must still be what it was.
+	if op.N%2 == 0 && w.v == nil {
+		w.stats.Inc("probe.repaired-trie-updated-and-merged-on")
+		w.guard("continuation after repair", func() {
+			// on private upper levels, so that nothing is written to or deleted from the store under test
+			rep2 := util.NewMerklePatriciaTrie(util.NewLevelNodeDB(util.NewMemoryNodeDB(), t.db, false), util.Sequence(rver), root, w.newCache())
+			if err := rep2.MergeDB(donor, root, nil); err != nil {
+				return
+			}
+			if _, err := rep2.Insert(util.Path("0f"), val([]byte("after-repair"))); err != nil {
+				return
+			}
+			x := util.NewMerklePatriciaTrie(util.NewLevelNodeDB(util.NewMemoryNodeDB(), t.db, false), util.Sequence(rver+3), root, w.newCache())
+			_ = x.MergeChanges(rep2.GetChanges())
+		})
+		dn = map[string]string{}
+		_ = donor.Iterate(context.Background(), func(ctx context.Context, key util.Key, node util.Node) error {
+			dn[string(key)] = string(node.Encode())
+			if !bytes.Equal(key, node.GetHashBytes()) {
+				dn[string(key)] = "stored under a key that is not its hash"
+			}
+			return nil
+		})
+		for k, e := range donorSnap {
+			if dn[k] != e && w.v == nil {
+				w.fail("c17.donor", "donor-node-changed-later", "donor node %x was modified after the repair (the repaired trie was updated and its changes merged into another trie)", k)
+			}
+		}
+		if w.v != nil {
+			return
+		}
+	}
 	// the original trie object continues
 	t.mpt = check
 }
